@@ -59,6 +59,17 @@ Theorem C19_valid_nfa_agrees : forall m, valid_nfa m = true <-> nfa_keys_ok m = 
 Proof. exact valid_nfa_agrees. Qed.
 Print Assumptions C19_valid_nfa_agrees.
 
+(* the hypothesis of the C02 theorems likewise: valid_pda = duplicate-free keys + the NPDA constructor accepts
+   (mode 2 = "both"; valid_pda does not mention the mode, which the record cannot get wrong) *)
+Theorem C19_valid_pda_agrees : forall m, valid_pda m = true <-> keys_ok m = true /\ npda_validate m 2 = Ok tt.
+Proof. exact valid_pda_agrees. Qed.
+Print Assumptions C19_valid_pda_agrees.
+
+(* the DPDA constructor model that C02 reasons about is this checker restricted to valid acceptance modes *)
+Theorem C19_dpda_checker_is_C02s : forall m mode, mode <= 2 -> dpda_validate_raw m mode = dpda_validate m.
+Proof. exact dpda_validate_raw_agrees. Qed.
+Print Assumptions C19_dpda_checker_is_C02s.
+
 (* ---- the exception raised is the documented one ---- *)
 (* whatever is raised is the documented exception of a rule that really is broken; a definition with a
    broken rule is rejected *)
